@@ -1337,6 +1337,9 @@ def build_fn(src: Source, selector, opts, sections, emitter: Emitter, unit_rules
                 if n < 1 or n > len(lps):
                     raise ExtractError(f"{selector}: loop {n} not found (function has {len(lps)} loops) (lost anchor)")
                 add_insert(lps[n - 1][1], "\n" + val.rstrip("\n") + "\n")
+            elif key.strip() == "hint start":
+                # right after the opening brace of the body
+                add_insert(sig_end + 1, "\n" + val.rstrip("\n") + "\n")
             elif key.startswith("hint "):
                 hm = re.match(r"hint (before|after) /(.*)/\s*(\d+)?$", key)
                 if not hm:
